@@ -49,6 +49,9 @@ class Io:
         return '%s %s %s %s' % (self.conn, self.recv, self.send, b01(self.shut_err))
 
 
+QUIET = Io('ok', 'a', 's65536', False)
+
+
 class FakeSocket:
     family = 2
     _n = 0
@@ -132,12 +135,14 @@ class FakeSocket:
 class DummyFile:
     def __init__(self, n):
         self.n = n
+        self.data = b''          # bytes made readable for one real Mux.fill (see RealTunnel.round)
 
     def fileno(self):
         return self.n
 
     def read(self, n):
-        return b''
+        d, self.data = self.data, b''
+        return d
 
     def write(self, b):
         return len(b)
@@ -373,10 +378,23 @@ class RealTunnel:
         else:
             self._guard('client' if end == 'c' else 'server', lambda: dst.got_packet(chan, cmd, data))
 
+    def _reap(self):
+        """Object lifetime as in CPython: a handler that left the handler list is unreferenced, so its
+        wrappers are finalised at once (their __del__ runs).  The simulator must not keep them alive."""
+        import gc
+        for f in self.flows:
+            if f.cproxy is not None and f.cproxy not in self.chandlers:
+                f.cproxy = None
+            if f.sproxy is not None and f.sproxy not in self.shandlers:
+                f.sproxy = None
+        gc.collect()
+
     def rm(self, end):
         hl = self.chandlers if end == 'c' else self.shandlers
         for h in [h for h in hl if not h.ok]:
             hl.remove(h)
+        h = None
+        self._reap()
 
     def round_idle(self, end):
         """A real runonce with nothing ready: removes dead handlers, runs every pre_select."""
@@ -384,6 +402,60 @@ class RealTunnel:
         mux = self.cmux if end == 'c' else self.smux
         self.ready = ([], [], [])
         self._guard(end, lambda: self.ssnet.runonce(hl, mux))
+        self._reap()
+
+    def round(self, end, nframes, ready_flows, iov):
+        """One REAL `ssnet.runonce` at `end`: the next `nframes` frames of the peer's queue arrive as bytes on
+        the mux read file, and the endpoint sockets of `ready_flows` are readable and writable (they answer per
+        `iov`).  Returns (frames delivered, flow indices in the order their Proxy.callback ran)."""
+        hl, mux, src = (self.chandlers, self.cmux, self.smux) if end == 'c' else (self.shandlers, self.smux, self.cmux)
+        k = 0
+        while k < min(nframes, len(src.outbuf)):
+            (_a, _b, _chan, cmd, _n) = struct.unpack('!ccHHH', src.outbuf[k][:8])
+            if cmd == self.ssnet.CMD_TCP_CONNECT:
+                break                      # CONNECTs are delivered one by one (they need a scripted connect result)
+            k += 1
+        data = b''.join(src.outbuf[:k])
+        del src.outbuf[:k]
+        socks = []
+        for i, f in enumerate(self.flows):
+            p = f.cproxy if end == 'c' else f.sproxy
+            sock = f.app_sock if end == 'c' else f.dst_sock
+            if p is not None and p in hl and sock is not None:
+                if i in ready_flows:
+                    sock.io = iov          # select reports it; it answers per iov
+                    socks.append(sock)
+                else:
+                    sock.io = QUIET        # not reported: nothing to read, writable if the proxy tries
+        mux.rfile.data = data
+        self.ready = (([mux.rfile] if data else []) + socks, list(socks), [])
+        calls = []
+        wrapped = []
+        for i, f in enumerate(self.flows):
+            p = f.cproxy if end == 'c' else f.sproxy
+            if p is not None and p in hl:
+                orig = p.callback
+
+                def logged(sock, _i=i, _orig=orig, _io=(iov if i in ready_flows else QUIET)):
+                    calls.append((_i, _io.text()))
+                    return _orig(sock)
+                p.callback = logged
+                wrapped.append(p)
+        order = [i for h in hl for i, f in enumerate(self.flows) if h is (f.cproxy if end == 'c' else f.sproxy)]
+        try:
+            self._guard('client' if end == 'c' else 'server', lambda: self.ssnet.runonce(hl, mux))
+        finally:
+            for p in wrapped:
+                try:
+                    del p.callback
+                except AttributeError:
+                    pass
+            self.ready = ([], [], [])
+            mux.rfile.data = b''
+        p = orig = logged = None
+        wrapped = None
+        self._reap()
+        return k, order, calls
 
     def check_full(self, end):
         mux = self.cmux if end == 'c' else self.smux
@@ -477,6 +549,24 @@ class Script:
             for i in range(len(t.flows)):
                 self.ins.append('q pre %s %d' % (end, i))
             self.ins.append('pre %s 99999' % end)      # prints the state (no such flow: no effect)
+            self.outs.append(t.show() + ' wants=none')
+            return True
+        if k == 'round':
+            _, end, nframes, ready_flows, iov = st
+            live0 = [i for i, f in enumerate(t.flows)
+                     if (f.cproxy if end == 'c' else f.sproxy) in (t.chandlers if end == 'c' else t.shandlers)]
+            nf, order, calls = t.round(end, nframes, ready_flows, iov)
+            self.steps.append(st)
+            # the same round on the model: drop dead handlers, every pre_select in handler order, the frames,
+            # then the callbacks in the order the real loop made them
+            self.ins.append('q rm %s' % end)
+            for i in order:
+                self.ins.append('q pre %s %d' % (end, i))
+            for _ in range(nf):
+                self.ins.append('q deliver %s ok' % end)
+            for i, iotext in calls:
+                self.ins.append('q cb %s %d %s' % (end, i, iotext))
+            self.ins.append('pre %s 99999' % end)
             self.outs.append(t.show() + ' wants=none')
             return True
         if k == 'accept':
